@@ -277,29 +277,33 @@ def mkdirOw (t : Tree) (dst : Path) (ow : Bool) : Option Tree :=
       | some (.file _) => some (set dst .dir (erase dst t))
       | none => none
 
+/-- one directory entry `e` of the source collection in the loop of webdav_copymove_dir()
+    (`recur` = the recursive call for a member collection that has to be merged) -/
+def mergeStep (recur : Path → Path → Tree → Tree × Bool) (move : Bool) (src dst : Path)
+    (acc : Tree × Bool) (e : Seg × Node) : Tree × Bool :=
+  let s := src ++ [e.1]
+  let d := dst ++ [e.1]
+  match e.2 with
+  | .file c =>
+    match get acc.1 d with
+    | some .dir => (acc.1, true)                     -- rename/link onto a directory: 409
+    | _ => (if move then set d (.file c) (erase s acc.1) else set d (.file c) acc.1, acc.2)
+  | .dir =>
+    match get acc.1 d with
+    | some .dir =>
+      if move && !hasChild d acc.1 then (moveTree s d acc.1, acc.2)   -- rename over an empty directory
+      else
+        let r := recur s d acc.1
+        (r.1, acc.2 || r.2)
+    | _ => (if move then moveTree s d acc.1 else copyTree s d acc.1, acc.2)
+
 /-- the merge loop of webdav_copymove_dir() for a source collection `src` and an existing
     destination collection `dst` (Overwrite: T).  Returns the tree and whether a member
     failed.  `fuel` bounds the nesting depth. -/
 def mergeDir : Nat → Bool → Path → Path → Tree → Tree × Bool
   | 0, _, _, _, t => (t, true)
   | fuel + 1, move, src, dst, t =>
-    let step := fun (acc : Tree × Bool) (e : Seg × Node) =>
-      let s := src ++ [e.1]
-      let d := dst ++ [e.1]
-      match e.2 with
-      | .file c =>
-        match get acc.1 d with
-        | some .dir => (acc.1, true)                 -- rename/link onto a directory: 409
-        | _ => (if move then set d (.file c) (erase s acc.1) else set d (.file c) acc.1, acc.2)
-      | .dir =>
-        match get acc.1 d with
-        | some .dir =>
-          if move && !hasChild d acc.1 then (moveTree s d acc.1, acc.2)   -- rename over empty dir
-          else
-            let r := mergeDir fuel move s d acc.1
-            (r.1, acc.2 || r.2)
-        | _ => (if move then moveTree s d acc.1 else copyTree s d acc.1, acc.2)
-    let r := (children src t).foldl step (t, false)
+    let r := (children src t).foldl (mergeStep (mergeDir fuel move) move src dst) (t, false)
     if move && !r.2 then (erase src r.1, false) else r
 
 /-- webdav_copymove_dir() at the top level: `none` = failed without touching anything (207) -/
@@ -319,51 +323,56 @@ def copymoveDir (move : Bool) (ow : Bool) (src dst : Path) (t : Tree) : Option (
 def nested (src dst : RPath) : Bool :=
   under src.segs dst.segs && !(src.slash && dst.segs == src.segs && !dst.slash)
 
+/-- the source is a collection (mod_webdav_copymove_b, S_ISDIR branch) -/
+def cmCollection (t : Tree) (r : Req) (move : Bool) (src dst : RPath) : Nat × Tree :=
+  if !src.slash then (308, t)
+  else if r.depth == .one then (400, t)
+  else if r.depth == .zero then
+    if move then (400, t)
+    else match lstat t ⟨dst.segs, true⟩ with
+      | .isdir => (204, t)
+      | .isfile _ => (403, t)
+      | .enotdir => (403, t)
+      | .enoent => if parentIsDir t dst.segs then (201, set dst.segs .dir t) else (409, t)
+  else match copymoveDir move r.ow.overwrite src.segs dst.segs t with
+    | none => (207, t)
+    | some (t', failed) => (if failed then 207 else 200, t')
+
+/-- "file to dir/": the source's last segment is appended to an existing destination collection -/
+def cmFileTarget (t : Tree) (src dst : RPath) : RPath :=
+  if lstat t dst == .isdir then ⟨dst.segs ++ src.segs.drop (src.segs.length - 1), false⟩ else dst
+
+/-- webdav_copymove_file() succeeded: the file is at `d` (and, for MOVE, gone from `src`) -/
+def cmDone (t : Tree) (move : Bool) (src d : Path) (c : Bytes) (s : Nat) : Nat × Tree :=
+  (s, if move then set d (.file c) (erase src t) else set d (.file c) t)
+
+/-- the source is a file with content `c` -/
+def cmFile (t : Tree) (r : Req) (move : Bool) (src dst : RPath) (c : Bytes) : Nat × Tree :=
+  let intoDir := lstat t dst == .isdir
+  let d := cmFileTarget t src dst
+  if intoDir && d.segs == src.segs then (403, t)     -- (repaired behaviour, see header)
+  else match lstat t d with
+    | .enoent =>
+      if intoDir then cmDone t move src.segs d.segs c 204
+      else if d.slash then (409, t)
+      else if parentIsDir t d.segs then cmDone t move src.segs d.segs c 201 else (409, t)
+    | .enotdir => (409, t)
+    | .isdir => if !r.ow.overwrite then (412, t) else (409, t)
+    | .isfile _ => if !r.ow.overwrite then (412, t) else cmDone t move src.segs d.segs c 204
+
 def doCopyMove (t : Tree) (r : Req) : Nat × Tree :=
-  let move := r.m == .move
   if !r.body.isEmpty then (415, t)
   else if r.ow == .bad then (400, t)
   else match r.dst with
   | .absent => (400, t)
   | .bad s => (s, t)
   | .ok dst =>
-    let src := r.src
-    if nested src dst then (403, t)
-    else match lstat t src with
+    if nested r.src dst then (403, t)
+    else match lstat t r.src with
     | .enoent => (404, t)
     | .enotdir => (403, t)
-    | .isdir =>
-      if !r.pre.holds true then (412, t)
-      else if !src.slash then (308, t)
-      else if r.depth == .one then (400, t)
-      else if r.depth == .zero then
-        if move then (400, t)
-        else match lstat t ⟨dst.segs, true⟩ with
-          | .isdir => (204, t)
-          | .isfile _ => (403, t)
-          | .enotdir => (403, t)
-          | .enoent => if parentIsDir t dst.segs then (201, set dst.segs .dir t) else (409, t)
-      else match copymoveDir move r.ow.overwrite src.segs dst.segs t with
-        | none => (207, t)
-        | some (t', failed) => (if failed then 207 else 200, t')
-    | .isfile c =>
-      if !r.pre.holds true then (412, t)
-      else
-        -- "file to dir/": append the source's last segment
-        let intoDir := lstat t dst == .isdir
-        let d : RPath := if intoDir then ⟨dst.segs ++ src.segs.drop (src.segs.length - 1), false⟩ else dst
-        if intoDir && d.segs == src.segs then (403, t)     -- (repaired behaviour, see header)
-        else
-          let fin := fun (s : Nat) =>
-            (s, if move then set d.segs (.file c) (erase src.segs t) else set d.segs (.file c) t)
-          match lstat t d with
-          | .enoent =>
-            if intoDir then fin 204
-            else if d.slash then (409, t)
-            else if parentIsDir t d.segs then fin 201 else (409, t)
-          | .enotdir => (409, t)
-          | .isdir => if !r.ow.overwrite then (412, t) else (409, t)
-          | .isfile _ => if !r.ow.overwrite then (412, t) else fin 204
+    | .isdir => if !r.pre.holds true then (412, t) else cmCollection t r (r.m == .move) r.src dst
+    | .isfile c => if !r.pre.holds true then (412, t) else cmFile t r (r.m == .move) r.src dst c
 
 /-! ### reads (mod_staticfile through the stat cache) -/
 
